@@ -1,5 +1,6 @@
 import Chrono.Drv.Util
 import Chrono.Model.Date
+import Chrono.Spec.Calendar
 namespace Chrono.Drv.Date
 open Chrono Chrono.M Chrono.Drv
 
@@ -81,6 +82,12 @@ def handle (op : String) (args : List String) : Option String :=
       | some y0, some y1 => toString (blockDigest yearDigestYo y0 y1) | _, _ => bad)
   | "d.blockymd", [y0, y1] => some (match int? y0, int? y1 with
       | some y0, some y1 => toString (blockDigest yearDigestYmd y0 y1) | _, _ => bad)
+  -- the SPECIFICATION (not the model): day number, weekday, validity, leap, year length; used to
+  -- validate the specification itself against references that share no code with chrono
+  | "spec.day", [y, m, d] => some (match int? y, nat? m, nat? d with
+      | some y, some m, some d =>
+        s!"{Spec.dayNum y m d} {Spec.weekdayOf (Spec.dayNum y m d)} {showBool (Spec.validYmd y m d)} {showBool (Spec.isLeap y)} {Spec.yearLen y}"
+      | _, _, _ => bad)
   | _, _ => none
 
 end Chrono.Drv.Date
